@@ -116,28 +116,33 @@ var positions = []position{
 	P("alias.description", "definitions", "Alias", "description"), P("alias.pattern", "definitions", "Alias", "pattern"), P("alias.default", "definitions", "Alias2", "default"),
 }
 
-type hostile struct{ class, text string }
+type hostile struct {
+	class, text string
+	onlyTarget  string // non-empty: the payload is meant for the code of that target alone
+}
 
 var hostilesQuick = []hostile{
-	{"block-close", "x */ func InjectedA() {} /* y"},
+	{class: "block-close", text: "x */ func InjectedA() {} /* y"},
 	// the same inside a struct body (comments on fields), where a declaration would be a syntax error (= an accepted generation failure)
-	{"block-close-field", "x */ InjectedF int /* y"},
-	{"backtick-stmt", "first part`; _ = `second part"},
-	{"mixed-crlf", "first line\r\nsecond line\nInjected string"},
+	{class: "block-close-field", text: "x */ InjectedF int /* y"},
+	{class: "backtick-stmt", text: "first part`; _ = `second part", onlyTarget: ""},
+	// the same inside a struct tag (a raw string in a struct body): what follows the closing backtick are field declarations
+	{class: "backtick-field", text: "x`; InjectedT int64; Other string `y", onlyTarget: "model-tags"},
+	{class: "mixed-crlf", text: "first line\r\nsecond line\nInjected string"},
 }
 var hostilesMore = []hostile{
-	{"raw-close-call", "x`); _ = len(`y"},
-	{"newline-code", "x\nfunc InjectedB() {}\n// y"},
-	{"quote", "x\" + InjectedC + \"y"},
-	{"block-close-regex", "x*/ func InjectedP() {} /*"},
-	{"backslash", "x\\"},
-	{"template", "{{ .Injected }}"},
-	{"backtick-plain", "a`b"},
-	{"cr-only", "x\rfunc InjectedD() {}"},
-	{"block-open", "/* x"},
-	{"line-sep-2028", "x func InjectedE() {}"},
-	{"percent", "100%s %d %!"},
-	{"dollar-brace", "${x} $(y)"},
+	{class: "raw-close-call", text: "x`); _ = len(`y"},
+	{class: "newline-code", text: "x\nfunc InjectedB() {}\n// y"},
+	{class: "quote", text: "x\" + InjectedC + \"y"},
+	{class: "block-close-regex", text: "x*/ func InjectedP() {} /*"},
+	{class: "backslash", text: "x\\"},
+	{class: "template", text: "{{ .Injected }}"},
+	{class: "backtick-plain", text: "a`b"},
+	{class: "cr-only", text: "x\rfunc InjectedD() {}"},
+	{class: "block-open", text: "/* x"},
+	{class: "line-sep-2028", text: "x func InjectedE() {}"},
+	{class: "percent", text: "100%s %d %!"},
+	{class: "dollar-brace", text: "${x} $(y)"},
 }
 
 func setPath(doc interface{}, path []string, v interface{}) bool {
@@ -180,6 +185,8 @@ type target struct {
 var targets = []target{
 	{"server", []string{"generate", "server", "-q", "-A", "verifapi"}},
 	{"cli", []string{"generate", "cli", "-q", "-A", "verifapi"}},
+	// descriptions and examples copied into struct tags (a raw string literal unless a value forbids it), followed by another tag
+	{"model-tags", []string{"generate", "model", "-q", "--struct-tags", "description", "--struct-tags", "example", "--struct-tags", "yaml"}},
 }
 
 type rendering struct {
@@ -520,12 +527,22 @@ func cmdInject(args []string) {
 					mu.Unlock()
 					continue
 				}
-				r := render(*bin, filepath.Join(*work, fmt.Sprintf("w%d", w)), spec, rendersIn[j.p.name], nil)
+				where := rendersIn[j.p.name]
+				if j.h.onlyTarget != "" {
+					if !where[j.h.onlyTarget] {
+						mu.Lock()
+						cov["class-not-applicable:"+j.h.class]++
+						mu.Unlock()
+						continue
+					}
+					where = map[string]bool{j.h.onlyTarget: true}
+				}
+				r := render(*bin, filepath.Join(*work, fmt.Sprintf("w%d", w)), spec, where, nil)
 				mu.Lock()
 				evals++
 				cov["class:"+j.h.class]++
 				for _, t := range targets {
-					if !rendersIn[j.p.name][t.name] {
+					if !where[t.name] {
 						continue
 					}
 					if r.exit[t.name] != 0 {
